@@ -1,6 +1,7 @@
 package simharness
 
 import (
+	"strings"
 	"context"
 	"errors"
 	"os"
@@ -24,6 +25,8 @@ type ReaderPlan struct {
 	Endless   string `json:"endless"`    // after the document, this line is delivered again and again: the input never ends
 	Once      bool   `json:"once"`       // the reader reports its error once; asked again it reports io.EOF
 	WithLen   bool   `json:"with_len"`   // the reader also has Len() and Size(), as strings.Reader and bytes.Buffer have
+	WithClose bool   `json:"with_close"` // the reader also has Close, as a file, a pipe or a response body has: it is the caller's to close
+	WriterTo  bool   `json:"writer_to"`  // the reader also has WriteTo, as a *bufio.Reader or an *os.File has
 	Seekable  bool   `json:"seekable"`   // the reader also has Seek, and the caller has already consumed a part of it: the document starts at the current offset (fault-free plans only)
 	Stall     bool   `json:"stall"`      // after StallAt bytes Read never returns (a pipe whose writer went silent)
 	StallAt   int    `json:"stall_at"`
@@ -42,6 +45,36 @@ type simReader struct {
 	yield bool
 	EndlessReads int
 	Stalled bool
+	Closed  int
+}
+
+// closeReader: the caller's reader with a Close method (counted, never expected).
+type closeReader struct{ *simReader }
+
+func (r closeReader) Close() error { r.simReader.Closed++; return nil }
+
+// wtReader: the caller's reader with WriteTo, subject to the same fault plan as Read.
+type wtReader struct{ *simReader }
+
+func (r wtReader) WriteTo(w io.Writer) (int64, error) {
+	var total int64
+	buf := make([]byte, 512)
+	for {
+		n, err := r.simReader.Read(buf)
+		if n > 0 {
+			m, werr := w.Write(buf[:n])
+			total += int64(m)
+			if werr != nil {
+				return total, werr
+			}
+		}
+		if err == io.EOF {
+			return total, nil
+		}
+		if err != nil {
+			return total, err
+		}
+	}
 }
 
 // lenReader is the caller's reader with the extra methods of a strings.Reader: a library
@@ -59,6 +92,12 @@ func asGiven(r io.Reader) io.Reader {
 		}
 		if sr.plan.WithLen {
 			return lenReader{sr}
+		}
+		if sr.plan.WithClose {
+			return closeReader{sr}
+		}
+		if sr.plan.WriterTo {
+			return wtReader{sr}
 		}
 	}
 	return r
@@ -105,6 +144,11 @@ func (e *chameleonErr) Error() string { return e.what + ": injected failure (cla
 func (e *chameleonErr) Is(target error) bool {
 	return target == io.EOF || target == context.Canceled
 }
+
+// multiErr is an error whose dynamic type is not comparable (a slice): err == other panics.
+type multiErr []string
+
+func (e multiErr) Error() string { return strings.Join(e, " ") }
 
 type stubErr struct{ what string }
 
@@ -252,6 +296,8 @@ func newSimWriter(plan WriterPlan, yield bool) *simWriter {
 		err = syscall.EPIPE
 	case 14:
 		err = os.ErrClosed
+	case 15:
+		err = multiErr{"writer stub: injected failure", "(an error value of a type that cannot be compared with ==)"}
 	}
 	return &simWriter{plan: plan, yield: yield, Err: err}
 }
